@@ -1,6 +1,7 @@
 package props
 
 import (
+	"archive/tar"
 	"bytes"
 	"fmt"
 	"path"
@@ -33,7 +34,7 @@ func parseInstall(s string) (map[string]string, error) {
 		if j < 0 {
 			return out, fmt.Errorf(".INSTALL: function %s has no closing brace line", name)
 		}
-		if rest := strings.TrimSpace(seg[j+2:]); rest != "" {
+		if rest := stripShellComments(seg[j+2:]); rest != "" {
 			return out, fmt.Errorf(".INSTALL: junk after function %s: %q", name, rest)
 		}
 		if _, dup := out[name]; dup {
@@ -41,10 +42,21 @@ func parseInstall(s string) (map[string]string, error) {
 		}
 		out[name] = seg[:j]
 	}
-	if len(locs) > 0 && strings.TrimSpace(s[:locs[0][0]]) != "" {
+	if len(locs) > 0 && stripShellComments(s[:locs[0][0]]) != "" {
 		return out, fmt.Errorf(".INSTALL: junk before first function: %q", s[:locs[0][0]])
 	}
 	return out, nil
+}
+
+// stripShellComments removes blank lines and whole-line comments: outside the functions they define nothing.
+func stripShellComments(s string) string {
+	var keep []string
+	for _, l := range strings.Split(s, "\n") {
+		if t := strings.TrimSpace(l); t != "" && !strings.HasPrefix(t, "#") {
+			keep = append(keep, t)
+		}
+	}
+	return strings.Join(keep, "\n")
 }
 
 // slotContents extracts slot name -> bytes (and member mode where there is one) from a decoded package.
@@ -54,6 +66,9 @@ func slotContents(f string, d *Decoded) (map[string][]byte, map[string]int64, er
 	switch f {
 	case "deb", "ipk":
 		for _, e := range d.ControlTar {
+			if e.Typeflag == tar.TypeDir {
+				continue // a "./" entry, as dpkg-deb --build writes one, is not a slot
+			}
 			n := strings.TrimPrefix(absOf(e.Name), "/")
 			switch n {
 			case "control", "md5sums", "conffiles", "triggers":
